@@ -312,6 +312,10 @@ def compute_argument_factorization(S, rank):
                 # Functionals and expressions: store as no args * factor
                 for comp in S.nodes[S_target]["component"]:
                     factors[comp] = {(): F.e2i[S.nodes[S_target]["expression"]]}
+            elif not isinstance(S.nodes[S_target]["expression"], Zero):
+                # A non-zero component that does not depend on the arguments is not
+                # linear in them (e.g. as_vector((u, f))): it would silently be dropped
+                raise RuntimeError("Expecting all non-zero components to depend on the arguments.")
             else:
                 # Zero form of arity 1 or higher: make factors empty
                 pass
